@@ -6,4 +6,5 @@ func genAll() {
 	genLocks()
 	genLockCalls()
 	genDerefs()
+	genListeners()
 }
